@@ -3437,6 +3437,13 @@ nested_parse_template_instantiation(CPPTemplateScope *scope) {
       ++pi;
     }
 
+    if (_state == S_eof) {
+      // The input ended within the template arguments.  A parameter pack
+      // would otherwise keep asking for more arguments forever.
+      _parsing_template_params = false;
+      break;
+    }
+
     _state = S_nested;
     _paren_nesting = 0;
   }
